@@ -315,6 +315,23 @@ func c03fOracle(p c03fParam, got string) (string, string) {
 	return "harness", "no oracle"
 }
 
+// c03fExplore = vsched.Explore, except that a failure of the engine's self check "the same schedule run twice gives the same
+// trace and the same verdict" (a panic of the engine; it never fails on the pinned tree) is returned instead of ending
+// the shard: a tree whose behaviour depends on what earlier executions left behind (package-level state: a counter, a
+// cache, a sync.Once) is reported as a violation (control-run/not-deterministic) and the job is given up.
+func c03fExplore(cfg vsched.Config, body func(x *vsched.Exec)) (st *vsched.Stats, diverged string) {
+	defer func() {
+		if e := recover(); e != nil {
+			if s, ok := e.(string); ok && strings.HasPrefix(s, "vsched: replay of a") {
+				st, diverged = &vsched.Stats{Outcomes: map[string]int64{}, TraceHashes: map[uint64]struct{}{}}, s
+				return
+			}
+			panic(e)
+		}
+	}()
+	return vsched.Explore(cfg, body), ""
+}
+
 func TestVerifC03F(t *testing.T) {
 	log.SetOutput(io.Discard)
 	log.StandardLogger().ExitFunc = vsched.Exit
@@ -335,11 +352,18 @@ func TestVerifC03F(t *testing.T) {
 	}
 
 	check := func(p c03fParam) func(x *vsched.Exec) string {
-		return func(x *vsched.Exec) string {
+		return func(x *vsched.Exec) (msg string) {
 			if x.Outcome() != "" {
 				return x.Outcome() + "|" + x.Detail()
 			}
 			got, _ := x.Obs.(string)
+			// the observation is built from what the tree delivers (record ids, output names): one the oracle
+			// cannot take apart is a verdict on the tree, not the end of the shard
+			defer func() {
+				if e := recover(); e != nil {
+					msg = fmt.Sprintf("unparsable-observation|the oracle cannot take the delivered records apart (%v):\n%s", e, got)
+				}
+			}()
 			c, d := c03fOracle(p, got)
 			if c == "" {
 				return ""
@@ -424,14 +448,20 @@ func TestVerifC03F(t *testing.T) {
 		cfg := vsched.Config{Name: p.Scn, Preemptions: p.Bound, DelayBounding: p.Mode == "delay", Full: p.Mode == "full",
 			Policy: p.Policy, Horizon: 20000, MaxExec: 300000, Expired: r.Expired, Check: check(p), Reset: reset}
 		vsched.MapOrderChoices = true
-		st := vsched.Explore(cfg, func(x *vsched.Exec) { x.Obs = c03fBody(p) })
+		st, div := c03fExplore(cfg, func(x *vsched.Exec) { x.Obs = c03fBody(p) })
 		vsched.MapOrderChoices = false
+		if div != "" {
+			r.Violate("obiformats/"+p.Scn+"/control-run/not-deterministic", fmt.Sprintf("%s files=%v arrival=%q readers=%d parts=%v batch=%d mode=%s policy=%d: %s", p.Scn, p.Files, p.Arrival, p.Readers, p.Parts, p.Batch, p.Mode, p.Policy, div), p)
+			r.Cap(fmt.Sprintf("exploration of %s %v %v mode=%s given up: the same schedule does not give the same execution twice", p.Scn, p.Files, p.Parts, p.Mode))
+			continue
+		}
 		r.Eval(st.Executions)
 		r.Trace(st.Executions)
 		r.Trans(st.Points)
 		r.Replayed(st.ReplaysChecked)
 		r.Count("hb_states", st.States)
 		r.Count("jobs_"+p.Mode, 1)
+		r.Count("schedules_executed", st.Executions)
 		for o, n := range st.Outcomes {
 			r.Count("outcome_"+o, n)
 		}
@@ -458,5 +488,5 @@ func TestVerifC03F(t *testing.T) {
 			r.Violate(key, fmt.Sprintf("%s files=%v arrival=%q readers=%d parts=%v batch=%d mode=%s policy=%d: %s [schedule=%v]", p.Scn, p.Files, p.Arrival, p.Readers, p.Parts, p.Batch, p.Mode, p.Policy, parts[1], v.Choices), q)
 		}
 	}
-	r.RequireNonVacuous("outcome_completed")
+	r.RequireNonVacuous("schedules_executed") // what the harness did; how the executions ended is the tree's answer
 }
